@@ -667,7 +667,7 @@ func main() {
 		{"pwr/validatingpool.go", "ValidatingPool.GetWriter"},
 		{"pwr/validator.go", "ValidatorContext.Validate"}, {"pwr/validator.go", "ValidatorContext.validate"},
 		{"pwr/wounds.go", "AggregateWounds"}, {"pwr/wounds.go", "WoundsGuardian.Do"}, {"pwr/wounds.go", "WoundsWriter.Do"}, {"pwr/wounds.go", "WoundsPrinter.Do"},
-		{"pwr/archive_healer.go", "ArchiveHealer.Do"}, {"pwr/archive_healer.go", "ArchiveHealer.heal"}, {"pwr/archive_healer.go", "ArchiveHealer.healOne"},
+		{"pwr/archive_healer.go", "ArchiveHealer.Do"}, {"pwr/archive_healer.go", "ArchiveHealer.heal"}, {"pwr/archive_healer.go", "ArchiveHealer.healOne"}, {"pwr/healer.go", "NewHealer"},
 		{"pwr/safekeeper.go", "safeKeeper.validateBlock"}, {"pwr/safekeeper.go", "safeKeeperReader.Read"}, {"pwr/safekeeper.go", "safeKeeper.getBlockValidator"},
 		{"pwr/patcher/patcher.go", "savingPatcher.Resume"}, {"pwr/patcher/patcher.go", "savingPatcher.skipFile"},
 		{"pwr/patcher/patcher_rsync.go", "savingPatcher.processRsync"}, {"pwr/patcher/patcher_rsync.go", "savingPatcher.isFullFileOp"}, {"pwr/patcher/patcher_rsync.go", "makeWop"},
